@@ -238,6 +238,12 @@ func TestVerifC12HTTP(t *testing.T) {
 			out, known := status2outcome[status]
 			rulesCause := "rules:" + c.CfgClass()
 			switch {
+			case !known && (status == 502 || status == 503 || status == 504 || status == 404):
+				// the proxy could not reach the harness's upstream, or the route was not found: trouble of
+				// the environment / the harness, not a decision of the gate
+				atomic.AddInt64(&plumbing, 1)
+				verifx.Emit(map[string]any{"kind": "oracle", "msg": fmt.Sprintf("%s: status %d", desc, status)})
+				continue
 			case !known:
 				verifx.Fail(cc2, c.Features("http", "unexpected-status", rulesCause), "%s: status %d (upstream hits %d)", desc, status, hits)
 				continue
